@@ -359,3 +359,49 @@ def r5(ctx):
     ok = len(dg) == 1 and {k.arg: u(k.value) for k in dg[0].keywords}.get("labels") == "platforms"
     ctx.check(ok, "report:clustering:dendrogram-labels", "dendrogram leaves must be labelled with the same platform list", f.loc())
     ctx.floor(5)
+
+
+@rule("C07.R7", "the summary prints the metrics exactly as computed (no masking of NaN, no re-computation from other data)")
+def r7(ctx):
+    repo = ctx.repo
+    f = repo.func("report", "summary")
+    sm = f.params[0]
+    want = {"Code Divergence": f"divergence({sm})", "Coverage (%)": f"coverage({sm})", "Avg. Coverage (%)": f"average_coverage({sm})"}
+    found = 0
+    for n in walk_no_nested(f.node):
+        if isinstance(n, ast.JoinedStr):
+            label = "".join(v.value for v in n.values if isinstance(v, ast.Constant)).split(":")[0]
+            if label in want:
+                found += 1
+                fv = [v for v in n.values if isinstance(v, ast.FormattedValue)]
+                ok = len(fv) == 1
+                srcs = set()
+                if ok:
+                    leaves = provenance(f, fv[0].value, stmt_of(f, n))
+                    chains = [c for _, c in leaves]
+                    # the printed value must be the metric call itself: the only reaching definition is the call
+                    from ..flow import Reaching
+                    from ..cfg import cfg_of as _cfg
+
+                    if isinstance(fv[0].value, ast.Name):
+                        cfg = _cfg(f)
+                        rd = Reaching(cfg, f.params)
+                        defs = rd.defs_of(fv[0].value.id, cfg.node_of(stmt_of(f, n)))
+                        srcs = {u(cfg.nodes[d].ast.value) for d in defs if isinstance(cfg.nodes[d].ast, ast.Assign)}
+                        ok = srcs == {want[label]} and len(defs) == 1
+                    else:
+                        ok = u(fv[0].value) == want[label]
+                ctx.check(ok, f"report:summary:prints:{label}", f"`{label}` must print {want[label]} as returned (NaN when undefined); the printed value has definitions {sorted(srcs)}", f.loc(n))
+    ctx.check(found == 3, "report:summary:three-metrics", f"expected the three metric lines, found {found}", f.loc())
+    # the metric functions reference no module-level mutable state and keep nothing between calls
+    mod = repo.mod("report")
+    for name in ("coverage", "average_coverage", "distance", "divergence", "extract_platforms"):
+        g = repo.func("report", name)
+        free = set()
+        for x in g.body_nodes():
+            if isinstance(x, ast.Name) and isinstance(x.ctx, ast.Load) and x.id in mod.globals and x.id not in ("log",):
+                free.add(x.id)
+            if isinstance(x, ast.Global):
+                free.update(x.names)
+        ctx.check(not free, f"report:{name}:pure", f"reads module-level state {sorted(free)}: a metric must be a function of its arguments only (no cache keyed by object identity, no remembered tables)", g.loc())
+    ctx.floor(8)
